@@ -22,22 +22,50 @@ let parse_cfg toks =
         scale = int_of_string e; lzy = int_of_string f }
   | _ -> { kind = "wl"; cmin = 0; cmax = 3; q = 4; ncl = 1; scale = 1; lzy = 0 }
 
-let parse_cop toks = match toks with
-  | ["start"; f; a; w] -> CStart (nat_of_int (int_of_string f), z_of_int (int_of_string a), nat_of_int (int_of_string w))
-  | ["abort"; f] -> CAbort (nat_of_int (int_of_string f))
-  | ["join"; f] -> CJoin (nat_of_int (int_of_string f))
-  | ["get"; f] -> CGet (nat_of_int (int_of_string f))
-  | ["check"; f] -> CCheck (nat_of_int (int_of_string f))
+(* The op files name harness SLOTS 0..63.  `destroy f` deletes the Future in slot f and puts a new
+   object there; for model and spec the new object is a different future: slot f in its g-th
+   incarnation is future f + 64 * g.  [inc] = incarnation of every slot so far (per case). *)
+let nslots = 64
+let parse_cop (inc : int array) toks =
+  let id f = let f = int_of_string f in nat_of_int (f + nslots * inc.(f)) in
+  match toks with
+  | [st; f; a; w] when String.length st >= 5 && String.sub st 0 5 = "start" ->
+      (* start / startf<N> / startm<N>: which overload of Future::start the harness calls; the same call for model and spec *)
+      CStart (id f, z_of_int (int_of_string a), nat_of_int (int_of_string w))
+  | ["abort"; f] -> CAbort (id f)
+  | ["join"; f] -> CJoin (id f)
+  | ["get"; f] -> CGet (id f)
+  | ["check"; f] -> CCheck (id f)
+  | ["destroy"; f] -> let r = CDestroy (id f) in let k = int_of_string f in inc.(k) <- inc.(k) + 1; r
   | "pause" :: _ -> CPause
   | "gate" :: _ -> CPause   (* harness-only scheduling directive (gated replay): a pause for model and spec *)
   | _ -> failwith ("bad op: " ^ String.concat " " toks)
 
-let nfut = 64
+let slot_of (f : nat) : int = int_of_nat f mod nslots
 let fn (a : z) : z = Z.add (Z.mul (z_of_int 7) a) (z_of_int 3)
 
-type case = { cfg : cfgk; fixed : bool; mutable ops : (int * cop) list; mutable sched : (int * bool) list; mutable extra : string list list }
+type case = { cfg : cfgk; fixed : bool; sigfix : bool; inc : int array; mutable ops : (int * cop) list; mutable sched : (int * bool) list; mutable extra : string list list }
 
-let fut_of op = match op with CStart (f, _, _) | CAbort f | CJoin f | CGet f | CCheck f -> Some (int_of_nat f) | CPause -> None
+let new_case cfgt =
+  { cfg = parse_cfg cfgt; fixed = (try Sys.getenv "C10_ORIGINAL" <> "1" with Not_found -> true);
+    sigfix = (try Sys.getenv "C10_SIGNAL_ORIGINAL" <> "1" with Not_found -> true);
+    inc = Array.make nslots 0; ops = []; sched = []; extra = [] }
+
+(* number of model futures of a case *)
+let nfut_of (c : case) : int = nslots * (1 + Array.fold_left max 0 c.inc)
+
+let fut_of op = match op with
+  | CStart (f, _, _) | CAbort f | CJoin f | CGet f | CCheck f | CDestroy f -> Some (int_of_nat f)
+  | CPause | CResume _ -> None
+
+(* a start with work >= 4: its function starts the future in slot work - 4 (16..63, used by nothing else) *)
+let children (ops : (int * cop) list) : (int * int) list =   (* (owner client, child slot) in op order *)
+  List.filter_map (fun (cl, op) -> match op with CStart (_, _, w) when int_of_nat w >= 4 -> Some (cl, int_of_nat w - 4) | _ -> None) ops
+let nested_ok (ops : (int * cop) list) : bool =
+  let ch = List.map snd (children ops) in
+  let named = List.filter_map (fun (_, op) -> match fut_of op with Some f -> Some (f mod nslots) | None -> None) ops in
+  List.for_all (fun g -> g >= 16 && g < nslots && not (List.mem g named)) ch
+  && List.length (List.sort_uniq compare ch) = List.length ch
 
 (* scripts per client with global op indices; every future gets an implicit final join by its
    owner (the harness destroys all futures after the clients have ended) *)
@@ -50,28 +78,32 @@ let mk_config (c : case) : config =
     let own = List.filteri (fun _ _ -> true) (List.mapi (fun i (c2, op) -> (i, c2, op)) ops) in
     let mine = List.filter_map (fun (i, c2, op) -> if c2 = cl then Some (nat_of_int i, op) else None) own in
     let fs = List.sort compare (Hashtbl.fold (fun f o acc -> if o = cl then f :: acc else acc) owner []) in
-    mine @ List.mapi (fun k f -> (nat_of_int (n + k), CJoin (nat_of_int f))) fs) in
+    let kids = List.filter_map (fun (o, g) -> if o = cl then Some g else None) (children ops) in
+    mine @ List.mapi (fun k f -> (nat_of_int (n + k), CJoin (nat_of_int f))) (fs @ kids)) in
   let cap = if c.cfg.lzy = 1 then z_of_int 256 else eff_cap (z_of_int c.cfg.q) in
   { c_cap = cap; c_min = z_of_int (if c.cfg.lzy = 1 then 0 else c.cfg.cmin);
-    c_max = eff_max (z_of_int c.cfg.cmax); c_lazy = (c.cfg.lzy = 1); c_nfut = nat_of_int nfut;
-    c_scripts = scripts; c_fn = fn; c_fixed = c.fixed }
+    c_max = eff_max (z_of_int c.cfg.cmax); c_lazy = (c.cfg.lzy = 1); c_nfut = nat_of_int (nfut_of c);
+    c_scripts = scripts; c_fn = fn; c_fixed = c.fixed; c_sigfix = c.sigfix; c_nested = (children ops <> []) }
 
 (* ---------------- printing ---------------- *)
 let st_char s = match s with StIdle -> "I" | StRunning -> "R" | StFinished -> "F" | StAborted -> "A"
 let i_n n = string_of_int (int_of_nat n)
+let i_f f = string_of_int (slot_of f)
 
 let spec_line (o : sobs) : string = match o with
-  | SoStart (c, f, n, a) -> Printf.sprintf "start %s %s %s | ran 1 arg %s" (i_n c) (i_n f) (i_n n) (dec_of_z a)
-  | SoAbort (c, f, n) -> Printf.sprintf "abort %s %s %s" (i_n c) (i_n f) (i_n n)
-  | SoJoin (c, f, Some n) -> Printf.sprintf "join %s %s %s | after 1" (i_n c) (i_n f) (i_n n)
-  | SoJoin (c, f, None) -> Printf.sprintf "join %s %s - | after -" (i_n c) (i_n f)
+  | SoStart (c, f, n, a) -> Printf.sprintf "start %s %s %s | ran 1 arg %s" (i_n c) (i_f f) (i_n n) (dec_of_z a)
+  | SoAbort (c, f, n) -> Printf.sprintf "abort %s %s %s" (i_n c) (i_f f) (i_n n)
+  | SoJoin (c, f, Some n) -> Printf.sprintf "join %s %s %s | after 1" (i_n c) (i_f f) (i_n n)
+  | SoJoin (c, f, None) -> Printf.sprintf "join %s %s - | after -" (i_n c) (i_f f)
   | SoGet (c, f, n, v) ->
-      Printf.sprintf "get %s %s %s | after %s res %s" (i_n c) (i_n f) (match n with Some n -> i_n n | None -> "-")
+      Printf.sprintf "get %s %s %s | after %s res %s" (i_n c) (i_f f) (match n with Some n -> i_n n | None -> "-")
         (match n with Some _ -> "1" | None -> "-") (match v with Some v -> dec_of_z v | None -> "?")
   | SoCheck (c, f, n, st, ab) ->
-      Printf.sprintf "check %s %s %s | st %s ab %d" (i_n c) (i_n f) (i_n n)
+      Printf.sprintf "check %s %s %s | st %s ab %d" (i_n c) (i_f f) (i_n n)
         (match st with Some s -> st_char s | None -> "?") (if ab then 1 else 0)
   | SoPause c -> Printf.sprintf "pause %s" (i_n c)
+  | SoDestroy (c, f, Some n) -> Printf.sprintf "destroy %s %s %s | after 1" (i_n c) (i_f f) (i_n n)
+  | SoDestroy (c, f, None) -> Printf.sprintf "destroy %s %s - | after -" (i_n c) (i_f f)
 
 (* ---------------- running the model ---------------- *)
 let nthreads (s : state) = List.length s.st_threads
@@ -106,7 +138,9 @@ let obs_lines (c : case) (trace : event list) : string list =
   let nops = List.length c.ops in
   let tbl = Hashtbl.create 64 in
   (* position of every event *)
-  List.iteri (fun pos e -> match e with EvObs (cl, i, o) -> Hashtbl.replace tbl (int_of_nat i) (pos, int_of_nat cl, o) | _ -> ()) chron;
+  List.iteri (fun pos e -> match e with
+    | EvObs (cl, i, o) when int_of_nat cl < c.cfg.ncl -> Hashtbl.replace tbl (int_of_nat i) (pos, int_of_nat cl, o)   (* not the starts done by workers *)
+    | _ -> ()) chron;
   let arr = Array.of_list chron in
   let count_run_before f n pos =
     let k = ref 0 in
@@ -124,19 +158,21 @@ let obs_lines (c : case) (trace : event list) : string list =
     | Some (pos, cl, o) ->
       (match o with
        | OStart (f, n) ->
-           Printf.sprintf "start %d %s %s | ran %d arg %s" cl (i_n f) (i_n n) (count_run_before f n (Array.length arr))
+           Printf.sprintf "start %d %s %s | ran %d arg %s" cl (i_f f) (i_n n) (count_run_before f n (Array.length arr))
              (match run_arg f n with Some a -> dec_of_z a | None -> "-")
-       | OAbort (f, n) -> Printf.sprintf "abort %d %s %s" cl (i_n f) (i_n n)
-       | OJoin (f, Some n) -> Printf.sprintf "join %d %s %s | after %d" cl (i_n f) (i_n n) (after f n pos)
-       | OJoin (f, None) -> Printf.sprintf "join %d %s - | after -" cl (i_n f)
-       | OGet (f, Some n, v) -> Printf.sprintf "get %d %s %s | after %d res %s" cl (i_n f) (i_n n) (after f n pos)
+       | OAbort (f, n) -> Printf.sprintf "abort %d %s %s" cl (i_f f) (i_n n)
+       | OJoin (f, Some n) -> Printf.sprintf "join %d %s %s | after %d" cl (i_f f) (i_n n) (after f n pos)
+       | OJoin (f, None) -> Printf.sprintf "join %d %s - | after -" cl (i_f f)
+       | OGet (f, Some n, v) -> Printf.sprintf "get %d %s %s | after %d res %s" cl (i_f f) (i_n n) (after f n pos)
                                   (match v with Some v -> dec_of_z v | None -> "?")
-       | OGet (f, None, v) -> Printf.sprintf "get %d %s - | after - res %s" cl (i_n f) (match v with Some v -> dec_of_z v | None -> "?")
+       | OGet (f, None, v) -> Printf.sprintf "get %d %s - | after - res %s" cl (i_f f) (match v with Some v -> dec_of_z v | None -> "?")
        | OCheck (f, n, st, ab) ->
            (* while the call is in flight, and when abort() raced with the completion, the value is
               schedule dependent: the model prints it only where the spec determines it *)
-           Printf.sprintf "check %d %s %s | st %s ab %d" cl (i_n f) (i_n n) (st_char st) (if ab then 1 else 0)
-       | OPause -> Printf.sprintf "pause %d" cl))
+           Printf.sprintf "check %d %s %s | st %s ab %d" cl (i_f f) (i_n n) (st_char st) (if ab then 1 else 0)
+       | OPause -> Printf.sprintf "pause %d" cl
+       | ODestroy (f, Some n) -> Printf.sprintf "destroy %d %s %s | after %d" cl (i_f f) (i_n n) (after f n pos)
+       | ODestroy (f, None) -> Printf.sprintf "destroy %d %s - | after -" cl (i_f f)))
 
 (* mask the schedule dependent tokens of the model's observations with the spec's wildcards *)
 let mask_with_spec (m : string) (sp : string) : string =
@@ -160,7 +196,7 @@ let pc_name (p : pc) : string = match p with
   | CGrowLock -> "grow.lock" | CGrowInc -> "grow.inc" | CGrowUnlock _ -> "grow.unlock" | CSpawn -> "spawn"
   | CShrinkLock -> "shrink.lock" | CShrinkChk -> "shrink.chk" | CShrinkDec -> "shrink.dec" | CShrinkUnlock -> "shrink.unlock"
   | WCall _ -> "call" | WStore _ -> "store" | WRdAbort _ -> "rd.aborting" | WSwap _ -> "swap.state" | WSigSet _ -> "sig.set"
-  | WIncProc -> "inc.processed"
+  | WIncProc -> "inc.processed" | WBcast _ -> "sig.broadcast"
 
 let job_str j = match j with JNull -> "null" | JCall (f, n, a, _) -> Printf.sprintf "call(%s,%s,%s)" (i_n f) (i_n n) (dec_of_z a)
 
@@ -187,7 +223,8 @@ let search (c : case) (bfs_ops : int) (limit : int) : unit =
   let s = ref (init cfg) and pre = ref [] in
   let remaining st = List.length (List.hd st.st_threads).t_script in
   let quiet st = List.for_all (fun t -> t = 0 || blocked st (nat_of_int t)) (List.init (nthreads st) (fun i -> i)) in
-  while not (remaining !s <= bfs_ops && thread_pc !s 0 = PIdle && quiet !s) do
+  (* several clients: no prefix, the whole run is searched *)
+  while c.cfg.ncl = 1 && not (remaining !s <= bfs_ops && thread_pc !s 0 = PIdle && quiet !s) do
     let hold = remaining !s <= bfs_ops && thread_pc !s 0 = PIdle in
     let en = List.filter (fun t -> not (blocked !s (nat_of_int t)) && not (hold && t = 0)) (List.init (nthreads !s) (fun i -> i)) in
     (match en with
@@ -225,19 +262,67 @@ let search (c : case) (bfs_ops : int) (limit : int) : unit =
       Printf.printf "# deadlock after %d steps (%d prefix + %d searched)\n" (List.length sched) (List.length !pre) (List.length sched - List.length !pre);
       List.iter (fun (t, clk) -> Printf.printf "s %d %d\n" t (if clk then 1 else 0)) sched
 
+(* ---------------- hunt: random schedules until one ends in a deadlock ---------------- *)
+let hunt (c : case) (tries : int) : unit =
+  let cfg = mk_config c in
+  let best = ref None in
+  for k = 0 to tries - 1 do
+    lcg := k * 7919 + 17;
+    let s = ref (init cfg) and sched = ref [] and n = ref 0 and go = ref true in
+    while !go && not (clients_done cfg !s) do
+      let nt = nthreads !s in
+      let en = List.filter (fun t -> not (blocked !s (nat_of_int t))) (List.init nt (fun i -> i)) in
+      if en = [] then begin
+        go := false;
+        (match !best with Some b when List.length b <= !n -> () | _ -> best := Some (List.rev !sched))
+      end
+      else if !n > 20000 then go := false
+      else begin
+        let t = List.nth en (rnd (List.length en)) in
+        let burst = 1 + (if rnd 3 = 0 then rnd 12 else 0) in
+        let k2 = ref 0 in
+        while !k2 < burst && not (blocked !s (nat_of_int t)) do
+          let clk = (rnd 2 = 0) in
+          let (s', _) = step cfg !s (nat_of_int t) clk in
+          s := s'; sched := (t, clk) :: !sched; incr k2; incr n
+        done
+      end
+    done
+  done;
+  match !best with
+  | None -> Printf.printf "# no deadlock found in %d random schedules\n" tries
+  | Some sched ->
+      Printf.printf "# deadlock after %d steps\n" (List.length sched);
+      List.iter (fun (t, clk) -> Printf.printf "s %d %d\n" t (if clk then 1 else 0)) sched
+
 (* ---------------- main ---------------- *)
 let () =
   let mode = Sys.argv.(1) and file = Sys.argv.(2) in
   let finish (c : case) =
     let ops = List.rev c.ops in
     let cfg = mk_config c in
+    let nfut = nfut_of c in
     let valid = valid_script (nat_of_int c.cfg.ncl) (nat_of_int nfut) (List.map (fun (cl, op) -> (nat_of_int cl, op)) ops) in
     if c.cfg.kind = "wl" then begin
-      if not valid then emit "invalid"
+      let void_get = List.exists (fun (_, op) -> match op with CGet f -> let g = slot_of f in g >= 8 && g < 16 | _ -> false) ops in
+      if not (valid && nested_ok ops && not void_get) then emit "invalid"
       else begin
         let sp = List.map spec_line (spec_run fn (List.init nfut (fun _ -> sfut_init)) (List.map (fun (cl, op) -> (nat_of_int cl, op)) ops)) in
         let nstarts = List.length (List.filter (fun (_, op) -> match op with CStart _ -> true | _ -> false) ops) in
-        if mode = "spec" then begin List.iter emit sp; emit (Printf.sprintf "pool pushed %d tc_ok 1" nstarts) end
+        let nkids = List.length (children ops) in
+        (* the line that follows the `start` line of a call whose function starts another future *)
+        let nested_line (op : cop) (startline : string) (ran : int) (arg : string) (res : string) : string option =
+          match op with
+          | CStart (f, _, w) when int_of_nat w >= 4 ->
+              let n = List.nth (String.split_on_char ' ' startline) 3 in
+              Some (Printf.sprintf "nested %s %s %d | ran %d arg %s res %s" (i_f f) n (int_of_nat w - 4) ran arg res)
+          | _ -> None in
+        if mode = "spec" then begin
+          List.iter2 (fun (_, op) l -> emit l;
+            match op with
+            | CStart (_, a, _) -> (match nested_line op l 1 (dec_of_z (Z.add a (z_of_int 1))) (dec_of_z (fn (Z.add a (z_of_int 1)))) with Some x -> emit x | None -> ())
+            | _ -> ()) ops sp;
+          emit (Printf.sprintf "pool pushed %d tc_ok 1" (nstarts + nkids)); emit "quiet 1"; emit "lifetime late 0" end
         else if mode = "model" then begin
           let rec attempt k =
             if k > 40 then None
@@ -245,9 +330,33 @@ let () =
           match attempt 0 with
           | None -> emit "! timeout"
           | Some (sf, tr) ->
-              List.iter2 (fun m s -> emit (mask_with_spec m s)) (obs_lines c tr) sp;
+              let runs_of g = List.filter_map (fun e -> match e with EvRun (_, f2, n2, a) when int_of_nat f2 = g && int_of_nat n2 = 1 -> Some a | _ -> None) tr in
+              List.iter2 (fun (m, (_, op)) s -> emit (mask_with_spec m s);
+                match op with
+                | CStart (_, _, w) when int_of_nat w >= 4 ->
+                    let g = int_of_nat w - 4 in
+                    let rs = runs_of g in
+                    let res = (List.nth sf.st_futs g).f_result in
+                    (match nested_line op m (List.length rs) (match rs with a :: _ -> dec_of_z a | [] -> "-")
+                             (match res with Some v -> dec_of_z v | None -> "?") with Some x -> emit x | None -> ())
+                | _ -> ()) (List.combine (obs_lines c tr) ops) sp;
               emit (Printf.sprintf "pool pushed %s tc_ok %d" (dec_of_z sf.st_pushed)
-                      (if Z.leb sf.st_tcount cfg.c_max && Z.leb (z_of_int 0) sf.st_tcount then 1 else 0))
+                      (if Z.leb sf.st_tcount cfg.c_max && Z.leb (z_of_int 0) sf.st_tcount then 1 else 0));
+              (* quiescence: let every thread run until nothing moves; the ring is empty and every job counted *)
+              let q = ref sf and n = ref 0 in
+              let rec drain () =   (* round robin: a fair continuation *)
+                let moved = ref false in
+                for t = 0 to nthreads !q - 1 do
+                  if not (blocked !q (nat_of_int t)) then begin
+                    let (s', _) = step cfg !q (nat_of_int t) false in q := s'; incr n; moved := true end
+                done;
+                if !moved && !n < 200000 then drain () in
+              drain ();
+              emit (if Z.eqb !q.st_ring.r_head !q.st_ring.r_tail && Z.eqb !q.st_processed !q.st_pushed then "quiet 1"
+                    else Printf.sprintf "quiet 0 head=%s tail=%s pushed=%s processed=%s" (dec_of_z !q.st_ring.r_head) (dec_of_z !q.st_ring.r_tail)
+                           (dec_of_z !q.st_pushed) (dec_of_z !q.st_processed));
+              (* destructors that returned while a worker still held the Future *)
+              emit (Printf.sprintf "lifetime late %d" (List.length (List.filter (fun e -> match e with EvDestroy (_, _, false) -> true | _ -> false) tr)))
         end
       end
     end
@@ -295,20 +404,27 @@ let () =
       end
     end
   in
-  if mode = "search" then begin
-    let cs = ref None in
-    run_cases file (fun cfgt -> let c = { cfg = parse_cfg cfgt; fixed = (try Sys.getenv "C10_ORIGINAL" <> "1" with Not_found -> true); ops = []; sched = []; extra = [] } in cs := Some c; c)
+  if mode = "hunt" then
+    run_cases file new_case
       (fun c _ toks -> (match toks with
-          | "c" :: cl :: rest -> c.ops <- (int_of_string cl, parse_cop rest) :: c.ops
+          | "c" :: cl :: rest -> c.ops <- (int_of_string cl, parse_cop c.inc rest) :: c.ops
+          | _ -> ()); c)
+      (fun c -> c.ops <- c.ops; let c = { c with ops = c.ops } in
+                hunt { c with ops = c.ops } (if Array.length Sys.argv > 3 then int_of_string Sys.argv.(3) else 2000))
+  else if mode = "search" then begin
+    let cs = ref None in
+    run_cases file (fun cfgt -> let c = new_case cfgt in cs := Some c; c)
+      (fun c _ toks -> (match toks with
+          | "c" :: cl :: rest -> c.ops <- (int_of_string cl, parse_cop c.inc rest) :: c.ops
           | _ -> ()); c)
       (fun c ->
          let bfs_ops = if Array.length Sys.argv > 3 then int_of_string Sys.argv.(3) else 4 in
          let limit = if Array.length Sys.argv > 4 then int_of_string Sys.argv.(4) else 20000000 in
          search c bfs_ops limit)
   end else
-    run_cases file (fun cfgt -> { cfg = parse_cfg cfgt; fixed = (try Sys.getenv "C10_ORIGINAL" <> "1" with Not_found -> true); ops = []; sched = []; extra = [] })
+    run_cases file new_case
       (fun c _ toks -> (match toks with
-          | "c" :: cl :: rest -> c.ops <- (int_of_string cl, parse_cop rest) :: c.ops
+          | "c" :: cl :: rest -> c.ops <- (int_of_string cl, parse_cop c.inc rest) :: c.ops
           | ["s"; t; clk] -> c.sched <- (int_of_string t, clk = "1") :: c.sched
           | _ -> ()); c)
       finish
